@@ -46,6 +46,8 @@ def cases(draw):
             r["lb"], r["ub"] = -3000, -1200
         elif k == 2:
             r["lb"], r["ub"] = -2000.5, 5000
+    if draw(st.sampled_from([False, False, True])):
+        specs.share_ids(draw, spec)  # identifiers shared across object kinds; one group lists the namesakes
     return {
         "spec": spec,
         "path": draw(st.sampled_from(build.BUILD_PATHS)),
